@@ -392,6 +392,17 @@ def systems(thorough):
         if len(out) == before and kind in ("sparse", "int", "degenerate", "nearzero"): add("%s-%dx%d-#%d+I" % (kind, m, n, k), M, y, shift=1)
     return out
 
+class NoiseInterp(G.Interp):
+    """exact rationals, except that a floating-point sum or difference of two non-zero numbers that cancels EXACTLY comes out as sign * 2^-53 * |operand|
+    instead of 0: the size of the rounding noise double arithmetic leaves at such a cancellation, with the sign chosen adversarially (both signs are run).
+    Decisions of the solver that hinge on an exact zero (a coordinate that reaches the bound at the end of a step) are the ones rounding can flip."""
+    noise_sign = 0
+    def fop(self, op, x, y):
+        r = G.Interp.fop(self, op, x, y)
+        if self.noise_sign and op in ("+", "-") and r.num == 0 and x.num is not None and x.num != 0:
+            v = self.noise_sign * abs(x.num) / 2 ** 53; return G.FV(v, v)
+        return r
+
 def solve_with(solver, A, b, nthreads=1, fl_mode="default"):
     """run the extracted solver exactly on the dense symmetric system (A, b); returns the vector of rationals (used by C10 on the systems a monotonic fit hands over)"""
     prog, params = PROG; n = len(A)
@@ -410,7 +421,10 @@ def run_case(args):
     def ob(name, ok, detail=""): out.append(("%s: %s" % (tag, name), ok, detail[:600], time.time() - t0))
     try:
         prog, params = PROG
-        it = G.Interp(prog, X14.RatDom(), max_steps=4000000); it.prog_params = params
+        noise = 0
+        if fl_mode.endswith("/noise+"): noise = 1; fl_mode = fl_mode[:-7]
+        elif fl_mode.endswith("/noise-"): noise = -1; fl_mode = fl_mode[:-7]
+        it = (NoiseInterp if noise else G.Interp)(prog, X14.RatDom(), max_steps=4000000); it.prog_params = params; it.noise_sign = noise
         mk, st = install(it, nthreads, fl_mode)
         S = mk(Sp(n, n, {(i, j): A[i][j] for i in range(n) for j in range(n) if A[i][j] != 0}), 0)
         o = it.new_obj("dense", 1); o.cells[0] = dict(nrow=n, ncol=1, x=G.Ptr(it.array("Atb", [F(v) for v in b]), 0)); B = G.Ptr(o, 0)
@@ -431,6 +445,7 @@ def run_case(args):
         eps = Fr(2) ** -52
         tol = n * eps * 10 ** 5 if solver == "nnls_normal_block3" else Fr(1, 10 ** 9) if solver.startswith("nnls_lawson_hanson") else Fr(1, 10 ** 6)
         neg_allowed = Fr(0) if solver == "nnls_normal_block3" or solver.startswith("nnls_lawson_hanson") else tol
+        if noise: neg_allowed = max(neg_allowed, tol)             # with noise a component may come out as -1e-17: inside the tolerance the property allows
         ob("O2 every component is non-negative (%s)" % ("exactly" if neg_allowed == 0 else "up to KKT_TOL"), all(v >= -neg_allowed for v in x), "x = %s" % [str(v) for v in x])
         g = [sum(A[i][j] * x[j] for j in range(n)) - b[i] for i in range(n)]
         scale = max([abs(v) for v in b] + [Fr(1)])
@@ -538,6 +553,9 @@ def main():
         if label.startswith("found-"):
             cases += [(label, A, b, "nnls_normal_block3", nt, fm) for nt in (1, 2, 3) for fm in ("default", "updates", "recompute") if (label, A, b, "nnls_normal_block3", nt, fm) not in cases]
         elif thorough or q % 2 == 0: cases.append((label, A, b, "nnls_normal_block3", 1 + (q + 1) % 3, ("default", "updates", "recompute")[(q + 1) % 3]))
+        if thorough or q % 2 == 1 or label.startswith("found-"):
+            # the same code with rounding-sized noise at exact cancellations, both signs (see NoiseDom)
+            cases += [(label, A, b, "nnls_normal_block3", 1 + q % 3, ("default", "updates", "recompute")[q % 3] + sg) for sg in ("/noise+", "/noise-")]
         cases.append((label, A, b, "nnls_normal_block", 1, "default"))
         cases.append((label, A, b, "nnls_normal_block_updown", 1, ("default", "updates", "recompute")[(q + 2) % 3]))
         cases.append((label, A, b, "nnls_lawson_hanson", 1, "default"))
